@@ -88,6 +88,7 @@ type frame struct {
 type Exec struct {
 	C    *sim.Cluster
 	Mons []monitor.Monitor
+	All  []*common.Violation
 	mem  bytes.Buffer
 }
 
@@ -115,16 +116,22 @@ func NewExec(s *Suite) (*Exec, *common.Violation) {
 	return x, nil
 }
 
+// check evaluates every monitor; the first violation is returned, all of them
+// are kept in x.All (one transition can break several properties at once).
 func (x *Exec) check() *common.Violation {
+	x.All = x.All[:0]
 	if len(x.C.Problems) > 0 {
 		p := x.C.Problems[0]
 		x.C.Problems = nil
-		return &common.Violation{Property: "C18", Signature: "panic-or-livelock", Detail: p}
+		x.All = append(x.All, &common.Violation{Property: "C18", Signature: "panic-or-livelock", Detail: p})
 	}
 	for _, m := range x.Mons {
 		if v := m.Step(x.C); v != nil {
-			return v
+			x.All = append(x.All, v)
 		}
+	}
+	if len(x.All) > 0 {
+		return x.All[0]
 	}
 	return nil
 }
@@ -292,7 +299,9 @@ func (d *DFS) step(x *Exec, p []sim.Event) bool {
 		panic(fmt.Sprintf("INFRA: enabled event %v could not be applied: %v", e, err))
 	}
 	if v != nil {
-		d.found(v, p)
+		for _, w := range x.All {
+			d.found(w, p)
+		}
 		return false
 	}
 	return true
